@@ -4,7 +4,8 @@ PROP = {'counts': {'quick': 500, 'thorough': 50000},
          'colliding keys and values) written through the real pkg/wal (kind sched) or a real EngineFacade '
          '(kind engine), read back with GetEntriesFrom and serialised with WALEntryToProto, plus a delivery '
          'schedule over it (pieces L[i,j) cut at or inside transaction boundaries, duplicates, overlaps, one '
-         'reordering, drops answered by a resend, the 100-entry fetch of the primary, selections with holes, '
+         'reordering, drops answered by a resend, the fetch of the primary (100 entries extended to the end of the '
+         'transaction), selections with holes, '
          'literal malformed wire entries, failing applyFn calls, connection resets, restarts, acks) driven '
          'into the real replication.WALBatchApplier (kind engine: applyFn = real EngineApplier on a read-only '
          'engine); after every delivery the result class, GetMaxApplied, GetExpectedNext and the entries handed '
@@ -14,7 +15,8 @@ PROP = {'counts': {'quick': 500, 'thorough': 50000},
          'scan = real primary state after the same operations; non-trivial = log >= 4 entries with a '
          'multi-entry transaction, >= 3 deliveries, >= 3 entries applied and at least one duplicate / overlap / '
          'gap / failure / reset / restart; distinct by case text. Plus kind=emit (real Primary driven through '
-         'StreamWAL/Acknowledge/NegativeAcknowledge with an in-memory stream) and kind=replica (real Replica '
+         'StreamWAL/Acknowledge/NegativeAcknowledge with an in-memory stream; 4 generated + 2 corpus; never excused '
+         'by a known-finding class) and kind=replica (real Replica '
          'over loopback gRPC against a scripted primary) corpus scenarios: oracle only',
  'trusted_base': ['compression codecs (klauspost zstd, snappy) are external: C13_wire assumes decompress (compress p) = p '
                   'and that a non-empty payload does not compress to nothing; the harness checks both on generated payloads'],
@@ -27,7 +29,10 @@ PROP = {'counts': {'quick': 500, 'thorough': 50000},
  'partial': 'C13_prefix / C13_no_skip_no_dup are proved for every schedule whose deliveries start and end at '
             'transaction boundaries (any order, duplicates, overlaps, drops, failing applies, resets) and, one '
             'delivery at a time (C13_safe_step, C13_progress), for pieces cut inside a transaction that start at '
-            'the first entry of the newest applied number or exactly where the applied entries end; the statement '
-            'for every schedule of pieces is refuted (C13_prefix_statement_refuted and four more witnesses, each '
+            'the first entry of the newest applied number or exactly where the applied entries end; everything the '
+            'primary fetches for a replica lies between two boundaries (C13_fetch_aligned), so C13_prefix_polls covers '
+            'every poll-produced schedule; the statement '
+            'for every schedule of arbitrary pieces is refuted (C13_prefix_statement_refuted, C13_cut_indistinguishable: '
+            'no applier reporting a sequence number can handle a cut inside a transaction; and more witnesses, each '
             'a known-finding class replayed on the real applier); C13_cursor is proved for all deliveries '
             'whatsoever (restarts excluded: C13_restart_refuted)'}
